@@ -120,16 +120,19 @@ structure St08 where
   okOps : Nat := 0
   kinds : List String := []
 
-def opOfJson (o : Json) : Op :=
+def baseOpOfJson (o : Json) : Op :=
   match jstr (jget o "op") with
   | "alloc" => .alloc (jint (jget o "k")) (reqOfJson (jget o "req"))
   | "drop" => .drop ((jarr (jget o "idx")).map jnat)
   | "realloc" => .realloc (jnat (jget o "i")) (reqOfJson (jget o "req"))
   | _ => .rollbackRealloc
 
+def opOfJson (o : Json) : Op := if jbool (jget o "fail") then .failing (baseOpOfJson o) else baseOpOfJson o
+
 def stepC08 (st : St08) (oi : Json × Json) : St08 :=
   let (o, im) := oi
-  let op := opOfJson o
+  let fail := jbool (jget o "fail")
+  let op := baseOpOfJson o
   let ok := jbool (jget im "ok")
   let ws := (jarr (jget im "ws")).map wOfJson
   let newW := wOfJson (jget im "new")
@@ -139,12 +142,14 @@ def stepC08 (st : St08) (oi : Json × Json) : St08 :=
     | .alloc _ _ => schedFrom (if ok then plansOf ws else []) (jnat (jget im "nplans"))
     | .realloc _ _ => schedFrom (if ok && newW.cpuMap.length > 0 then plansOf [newW] else []) 0
     | _ => fun _ _ _ => []
-  let (s', mok) := step sched st.s op
+  let (s', mok) := step sched st.s (opOfJson o)
   let outSame : Bool := match op with
     | .alloc _ _ => !ok || wsSame (s'.live.drop st.s.live.length) ws
     | .realloc i _ => !ok || (wSame (s'.live.getD i {}) newW && (s'.undo.map fun u => wSame u.delta delta).getD false)
     | _ => true
-  let agree := mok == ok && usageSame s'.node.usage usage && outSame
+  -- after a rolled-back commit the implementation's maps keep the keys the commit created
+  let usageAgree := if fail then usageEqB s'.node.usage usage else usageSame s'.node.usage usage
+  let agree := mok == ok && usageAgree && outSame
   -- the implementation's own live set
   let (live', undo') : List WorkloadRes × Option Undo :=
     if !ok then (st.implLive, none) else
@@ -155,16 +160,25 @@ def stepC08 (st : St08) (oi : Json × Json) : St08 :=
     | .rollbackRealloc => match st.implUndo with
       | some u => (st.implLive.set u.idx u.origin, none)
       | none => (st.implLive, none)
+    | .failing _ => (st.implLive, none)
   let opname := jstr (jget o "op")
   let v1 := if consistentB usage live' then [] else [s!"C08:usage-sum:{opname}"]
   let v2 := if isNull o "restores" || !ok then [] else
     if usageEqB usage (st.usages.getD (jnat (jget o "restores")) {}) then [] else [s!"C08:rollback:{opname}"]
   let v3 := if jint (jget im "diffs") != 0 && v1.isEmpty then [s!"C08:impl-diffs:{opname}"] else []
-  let kind := opname ++ (if ok then "" else "-refused") ++
+  let prev := st.usages.getLastD {}
+  -- a failed operation (refused, invalid, or another plugin failing in the commit) changes nothing
+  let v4 := if !ok && !usageEqB usage prev then [s!"C08:failed-op-changed-usage:{opname}"] else []
+  -- Before/After reported by the cpumem plugin, where the harness could observe them
+  let picks := match op with | .drop idxs => pickIdxs st.implLive idxs | _ => []
+  let v5 := if isNull im "before" then [] else
+    (if usageEqB (nodeResOfJson (jget im "before")) prev then [] else [s!"C08:reported-before:{opname}"]) ++
+    (if usageEqB (nodeResOfJson (jget im "after")) (picks.foldl (fun acc w => acc.sub w.toNodeRes) prev) then [] else [s!"C08:reported-after:{opname}"])
+  let kind := (if fail then "otherfail-" else "") ++ opname ++ (if ok then "" else "-refused") ++
     (match op with | .realloc _ _ => (if ok then (if newW.cpuMap.length > 0 then "-bound" else "-unbound") ++ (if newW.numaMemory.length > 0 then "-numa" else "") else "")
                    | .alloc _ r => (if r.cpuBind then "-bound" else "") | _ => "")
   { s := s', implLive := live', implUndo := undo', usages := st.usages ++ [usage], agree := st.agree && agree,
-    spec := st.spec ++ v1 ++ v2 ++ v3, okOps := st.okOps + (if ok then 1 else 0), kinds := st.kinds ++ [kind] }
+    spec := st.spec ++ v1 ++ v2 ++ v3 ++ v4 ++ v5, okOps := st.okOps + (if ok then 1 else 0), kinds := st.kinds ++ [kind] }
 
 def handleC08 (j : Json) : Json :=
   let id := jget j "id"
@@ -178,7 +192,7 @@ def handleC08 (j : Json) : Json :=
     let numa := if capacity.numa.length > 0 then "numa" else "flat"
     let has (p : String) : Bool := st.kinds.any (·.startsWith p)
     let feats := (if has "realloc-bound" || has "realloc-unbound" then ":realloc" else "") ++
-      (if st.kinds.any (· == "rbrealloc") then ":rb" else "") ++ (if st.kinds.any (·.endsWith "-numa") then ":numamem" else "")
+      (if st.kinds.any (· == "rbrealloc") then ":rb" else "") ++ (if has "otherfail-" then ":otherfail" else "") ++ (if st.kinds.any (·.endsWith "-numa") then ":numamem" else "")
     verdict id agree (Json.mkObj [("usage", nodeResToJson st.s.node.usage), ("live", Json.arr (st.s.live.map wToJson).toArray)])
       st.spec (s!"hist-{numa}" ++ feats) (st.okOps == 0)
 
